@@ -5,7 +5,7 @@
    well-formed schemas: Proof/ConstrBase.v (Inv, wf_schema). *)
 From Coq Require Import ZArith List Bool.
 From TV Require Import Model.SqlSpec Model.CheckStr Model.ConstrSpec Model.ConstrImpl Model.ConstrClass
-                       Proof.CheckStrMain Proof.ConstrBase Proof.ConstrIns Corr.C09 Proof.ConstrRefute.
+                       Proof.CheckStrMain Proof.ConstrBase Proof.ConstrIns Proof.ConstrSel Proof.ConstrDel Corr.C09 Proof.ConstrMain Proof.ConstrRefute.
 Import ListNotations.
 Open Scope Z_scope.
 
@@ -47,6 +47,42 @@ Theorem insert_exact :
                    exec_write sch (abs_db st) (SIns t rows) = (ok, abs_db st') /\ Inv sch st'.
 Proof. exact insert_exact_l. Qed.
 
+(* row selection: outside class 11 the rows a DELETE / UPDATE works on -- collected by the cursor
+   scan or through the primary-key index with its fall-back -- are exactly the live rows that pass
+   the WHERE clause *)
+Theorem selection_exact :
+  forall ds ts next w,
+    tinv ds ts next -> uniq_ok ds (visible ts) = true ->
+    has_dead (select_rows ds ts w) = false ->
+    select_rows ds ts w = live_sel ts w.
+Proof. exact select_rows_live. Qed.
+
+(* DELETE: for every well-formed schema, every state satisfying the invariant and every DELETE
+   outside the recorded classes (11 tombstone selected, 16 deleted child matched, 17 NULL = NULL,
+   19 cascade over a child row holding key values): the implementation refuses iff a child row
+   under RESTRICT / NO ACTION would lose its parent, removes with ON DELETE CASCADE exactly the
+   child rows the reference removes, leaves the reference's tables and keeps the invariant *)
+Theorem delete_exact :
+  forall sch st t w,
+    wf_schema sch -> Inv sch st -> stmt_class sch st (SDel t w) = 0 ->
+    exists ok st', impl_step sch st (SDel t w) = (Some ok, st') /\
+                   exec_write sch (abs_db st) (SDel t w) = (ok, abs_db st') /\ Inv sch st'.
+Proof. exact delete_exact_l. Qed.
+
+(* HISTORIES: for every well-formed schema and every history of INSERT and DELETE statements on
+   both tables (deletes followed by re-inserts of the same keys, RESTRICT / CASCADE parent deletes,
+   multi-row inserts ...), starting from the empty database: if the history is in no recorded class
+   and the implementation model reproduces what was observed, then what was observed satisfies the
+   property -- every write accepted iff the resulting database satisfies every declared constraint,
+   tables equal to the reference's after every statement (Corr/C09.v known_class / model_agrees /
+   spec_ok are the functions the correspondence run evaluates on the real database's answers) *)
+Theorem constraints_exact_ins_del :
+  forall sch steps,
+    wf_schema sch -> no_update (map fst steps) = true ->
+    known_class (Hist sch steps) = 0 -> model_agrees (Hist sch steps) = true ->
+    spec_ok (Hist sch steps) = true.
+Proof. exact constraints_exact_ins_del_l. Qed.
+
 (* every recorded finding class is a genuine failure: a history as the real database answered it,
    reproduced by the implementation model, refused by the reference, in the stated class *)
 Theorem constraints_refuted :
@@ -70,10 +106,16 @@ Proof. vm_compute. repeat split. Qed.
 Check spec_accepts_iff_valid : forall sch d s, (fst (exec_write sch d s) = true <-> valid_db sch (apply_stmt sch d s) = true) /\ snd (exec_write sch d s) = (if fst (exec_write sch d s) then apply_stmt sch d s else d).
 Check check_eval_agrees : forall n ci e r, (ci < n)%nat -> (n <= 10)%nat -> chk_frag ci e = true -> (exists z, nth_error r ci = Some (VInt z)) \/ nth_error r ci = Some VNull -> impl_check (cnames n) ci e (col_val ci r) = COk (chk_b e r).
 Check insert_exact : forall sch st t (rows : list row), wf_schema sch -> Inv sch st -> forallb (row_fits (length (cols_of sch t))) rows = true -> ins_partial sch t st rows = false -> exists ok st', impl_step sch st (SIns t rows) = (Some ok, st') /\ exec_write sch (abs_db st) (SIns t rows) = (ok, abs_db st') /\ Inv sch st'.
+Check selection_exact : forall ds ts next w, tinv ds ts next -> uniq_ok ds (visible ts) = true -> has_dead (select_rows ds ts w) = false -> select_rows ds ts w = live_sel ts w.
+Check delete_exact : forall sch st t w, wf_schema sch -> Inv sch st -> stmt_class sch st (SDel t w) = 0 -> exists ok st', impl_step sch st (SDel t w) = (Some ok, st') /\ exec_write sch (abs_db st) (SDel t w) = (ok, abs_db st') /\ Inv sch st'.
+Check constraints_exact_ins_del : forall sch steps, wf_schema sch -> no_update (map fst steps) = true -> known_class (Hist sch steps) = 0 -> model_agrees (Hist sch steps) = true -> spec_ok (Hist sch steps) = true.
 Check constraints_refuted : refutes 1 wit_1 /\ refutes 2 wit_2 /\ refutes 3 wit_3 /\ refutes 4 wit_4 /\ refutes 10 wit_10 /\ refutes 11 wit_11 /\ refutes 12 wit_12 /\ refutes 13 wit_13 /\ refutes 14 wit_14 /\ refutes 15 wit_15 /\ refutes 16 wit_16 /\ refutes 17 wit_17 /\ refutes 18 wit_18 /\ refutes 19 wit_19.
 Check inv_initial : forall sch, Inv sch (d_empty sch).
 Print Assumptions spec_accepts_iff_valid.
 Print Assumptions inv_initial.
 Print Assumptions check_eval_agrees.
 Print Assumptions insert_exact.
+Print Assumptions selection_exact.
+Print Assumptions delete_exact.
+Print Assumptions constraints_exact_ins_del.
 Print Assumptions constraints_refuted.
